@@ -230,10 +230,6 @@ class Gen:
         if kind == 'concat':     # type-sensitive: display form of the operand
             return ['op', '&', ['op', '&', self.scalar_ref(i, host),
                                 ['s', '-']], self.scalar(i, host, d)]
-        # (not enabled by any property: DEC2HEX(<cell holding a logical>) is
-        # "0" inside a model - the value arrives as numpy.bool_ - and #VALUE!
-        # in the stand-alone formula fed with the Python bool: a function-level
-        # quirk that would be a false alarm of the fixed-point oracle)
         if kind == 'engfn':      # argument parsers that tell TRUE from 1.0
             return ['f', rng.pick(['DEC2BIN', 'DEC2HEX', 'DEC2OCT']),
                     self.scalar_ref(i, host)]
